@@ -216,5 +216,11 @@ def _(self, key):
                     and r[2] in ds.ongoing_reads and not old(r[2] in ds.ongoing_reads)
                     and forall(str, lambda x: implies(x != r[2], (x in ds.ongoing_reads) == old(x in ds.ongoing_reads)))),
             tag="read-registers-a-fresh-reader", top=True)
+    # "while a reader (younger than the staleness window) still holds it": the window is counted from THIS read - the reader is registered with
+    # the clock reading taken for this call, never with an older time; the first / last access times (what the eviction order looks at) follow it
+    observes(now="time_ns")
+    ensures(implies(st0 == DatasetStatus.in_memory, ds.ongoing_reads[r[2]] == now and ds.retrieved_last == now
+                    and ds.retrieved_first == (now if old(ds.retrieved_first) == 0 else old(ds.retrieved_first))),
+            tag="reader-registered-with-the-time-of-this-read", top=True)
     invariant(0, True)
     modifies("status", "free_space", "pageout_count", "locked", "events", "retrieved_first", "retrieved_last", self.datasets[key].ongoing_reads)
